@@ -96,6 +96,47 @@ sys.exit(1 if bad else 0)
 NORMS = [1e-30, 1e-12, 1e-6, 1 - 1e-5, 1 - 3e-7, 1.0, 1 + 3e-7, 1 + 8e-6, 1 + 1e-4, 1e6, 1e30]
 NORM_TOL = 1e-10              # purely relative; used where the Krylov space is exhausted (breakdown / full-space exit), no absolute floor
 
+KFAULT_REPRO = r'''
+# fault path of _expm_krylov: when eigh_tridiagonal raises LinAlgError (LAPACK non-convergence) the kernel falls back to a dense
+# np.linalg.eigh of the tridiagonal matrix; the result must satisfy the same contract.  The failure is injected.  exit 1 = wrong result.
+import sys, renormalizer, numpy as np, scipy.linalg
+from renormalizer.lib.krylov import krylov as K
+def failing(*a, **k): raise np.linalg.LinAlgError("injected")
+K.eigh_tridiagonal = failing
+rng = np.random.default_rng(2); bad = 0
+for n in (2, 5, 12, 30):
+    M = rng.normal(size=(n, n)) + 1j * rng.normal(size=(n, n)); H = (M + M.conj().T) / 2
+    v = rng.normal(size=n) + 1j * rng.normal(size=n)
+    for dt in (-0.6j, -0.6):
+        res, j = K.expm_krylov(lambda x: H @ x, dt, v.copy())
+        E = scipy.linalg.expm(dt * H)
+        err = np.linalg.norm(res - E @ v) / (np.linalg.norm(v) * np.linalg.norm(E, 2))
+        print("n=%d dt=%r iterations=%d relative error on the fallback path %.3g" % (n, dt, j, err)); bad += err > 1e-6
+sys.exit(1 if bad else 0)
+'''
+
+SFAULT_REPRO = r'''
+# fault path of optimized_svd (used by svd_qn): when the gesdd driver raises LinAlgError the SVD is retried with gesvd; the factors
+# must satisfy the same contract (U diag(S) V^T = block).  The failure is injected.  exit 1 = reconstruction wrong.
+import sys, renormalizer, numpy as np, scipy.linalg
+from renormalizer.mps import svd_qn as M
+real_svd = scipy.linalg.svd
+def svd(a, *args, **kw):
+    if kw.get("lapack_driver") == "gesdd": raise scipy.linalg.LinAlgError("injected")
+    return real_svd(a, *args, **kw)
+scipy.linalg.svd = svd
+rng = np.random.default_rng(4); bad = 0
+for (m, n), scale in (((4, 3), 1.0), ((4, 3), 250.0), ((3, 5), 1e-6), ((9, 2), 7.0)):
+    a = rng.normal(size=(m, n)) * scale
+    qnl = np.zeros((m, 1), int); qnr = np.zeros((n, 1), int)
+    for full in (True, False):
+        u, su, ql, v, sv, qr = M.svd_qn(a, qnl, qnr, np.array([0]), full_matrices=full)
+        k = min(m, n)
+        err = np.abs((u[:, :k] * su[:k]) @ v[:, :k].T - a).max() / np.abs(a).max()
+        print("shape %s scale %g full=%s  |U S V^T - A| / max|A| = %.3g" % ((m, n), scale, full, err)); bad += err > 1e-10
+sys.exit(1 if bad else 0)
+'''
+
 NORM_REPRO = r'''
 # expm_krylov must be homogeneous of degree 1 in the start vector and accurate in purely RELATIVE terms at every norm:
 # it normalises vstart (unconditionally), runs Lanczos from the unit vector and multiplies the result by the norm.
@@ -226,7 +267,9 @@ def gen_svd_case(rng, cid, malformed=False):
             "full": rng.random() < 0.5, "opt": rng.random() < 0.6, "complex": rng.random() < 0.4,
             "data": rng.choice(["rand", "rand", "masked", "lowrank", "ties", "zero"]), "malformed": malformed,
             # NORM stream: about a third of the cases at another overall scale (complex phase for complex data)
-            "scale": rng.choice(NORMS) if rng.random() < 0.35 else 1.0, "theta": rng.uniform(0, 6.28)}
+            "scale": rng.choice(NORMS) if rng.random() < 0.35 else 1.0, "theta": rng.uniform(0, 6.28),
+            # FAULT-PATH stream: the gesdd driver "fails" (injected LinAlgError) and optimized_svd retries with gesvd
+            "fault": (not QR) and rng.random() < 0.25}
 
 
 def gen_eigh_case(rng, cid, malformed=False):
@@ -264,14 +307,15 @@ def gen_krylov_case(rng, cid, dtype_class=False):
          "target": rng.choice([0.01, 0.5, 3, 10, 20]),
          "vdtype": "complex", "dtform": rng.choice(["float", "complex0"]), "scale": rng.choice([1.0, 1.0, 1e-3, 1e3, 1e6]),
          "cls": "main"}
+    c["fault"] = rng.random() < 0.2              # FAULT-PATH stream: eigh_tridiagonal "fails" -> dense fallback in _expm_krylov
     if dtype_class == "small-norm":
         # informational class: the convergence test uses allclose's ABSOLUTE tolerance 1e-8, so the accuracy relative to
         # ||v|| degrades for small-norm vectors; measured and reported in the notes, not a verdict (see notes/C18.md)
         c.update({"n": rng.randint(30, 45), "bs": 50, "spec": "rand", "mat": "complex", "vec": "rand", "phase": [0, -1], "target": 20,
-                  "scale": rng.choice([1e-6, 1e-9]), "cls": "small-norm"})
+                  "scale": rng.choice([1e-6, 1e-9]), "cls": "small-norm", "fault": False})
     elif dtype_class:
         c["mat"] = "complex"; c["vdtype"] = "real"; c["vec"] = "rand"; c["cls"] = "real-vstart-complex-op"
-        c["n"] = rng.randint(3, 30); c["spec"] = "rand"; c["target"] = rng.choice([0.5, 3]); c["scale"] = 1.0
+        c["n"] = rng.randint(3, 30); c["spec"] = "rand"; c["target"] = rng.choice([0.5, 3]); c["scale"] = 1.0; c["fault"] = False
     elif c["mat"] in ("real", "diag") and rng.random() < 0.4:
         c["vdtype"] = "real"                       # real data throughout: admissible, result real or complex by dt
     return c
@@ -293,6 +337,7 @@ def gen_norm_cases(rng, start_id, per_norm):
                  "normval": nv, "theta": rng.choice([0.0, rng.uniform(0, 6.28)]), "cls": "main"}
             if c["mat"] in ("real", "diag") and rng.random() < 0.4:
                 c["vdtype"] = "real"
+            c["fault"] = rng.random() < 0.2
             out.append(c)
     return out
 
@@ -466,6 +511,7 @@ def run(ctx):
         for r in res["results"]:
             results[r["id"]] = r
     oracle_bad, struct_bad, witness_bad = [], [], []
+    fstat = {"svd_cases": 0, "svd_hits": 0, "krylov_cases": 0, "krylov_hits": 0}
     hist = {}
     eval_lines, eval_cases = [], []
     nontrivial = 0
@@ -494,6 +540,9 @@ def run(ctx):
             labels = c["qnl"] if (c["kind"] == "svd" or c["system"] == "L") else c["qnr"]
             if nkeys >= 2 or len({tuple(l) for l in labels}) > nkeys:
                 nontrivial += 1
+        if c.get("fault") and c["kind"] == "svd":
+            fstat["svd_cases"] += 1
+            fstat["svd_hits"] += r.get("fault_hits", 0)
         eval_lines.append(svd_eval_line(c, r))
         eval_cases.append((c, r))
     # ---------------------------------------------------------------- 4. Krylov: implementation + oracle
@@ -538,6 +587,9 @@ def run(ctx):
         why = []
         if r["err"] > KRYLOV_TOL:
             why.append("error %.3g > %.1g" % (r["err"], KRYLOV_TOL))
+        if c.get("fault"):
+            fstat["krylov_cases"] += 1
+            fstat["krylov_hits"] += r.get("fault_hits", 0)
         if c.get("normval") is not None:
             exact = r["exit"] in (0, 1)
             if exact and r["err"] > NORM_TOL:
@@ -675,6 +727,17 @@ def run(ctx):
         ctx.violation("c18-proofs", "; ".join(broken), {"coq_log_tail": log[-2000:] if isinstance(log, str) else "",
                       "source_shape_differs_from_model (C18_source_shape / shape_ok)": shape_diff,
                       "hint": "if Proofs/KrylovProofs.v fails at sites_hermitian_b, a call site of expm_krylov no longer passes a (verifiably) Hermitian operator: see the sites table in the evidence notes and the cmf / site violation of this run"}, found=False)
+    sf_bad = [b for b in oracle_bad if b["case"].get("fault") and b["case"]["kind"] == "svd" and not b["case"]["malformed"]]
+    if sf_bad:
+        oracle_bad = [b for b in oracle_bad if b not in sf_bad]
+        rc_f, out_f = common.sh([common.IMPL_PY, "-c", SFAULT_REPRO], env=common.impl_env(), cwd="/", timeout=300)
+        mini_f = min(sf_bad, key=lambda b: len(b["case"]["qnl"]) * len(b["case"]["qnr"]))
+        ctx.violation("svd_qn-fault-path", "svd_qn on the retry path of optimized_svd (gesdd raised LinAlgError, injected; gesvd retry) violates the contract of the regular path",
+                      {"failing": len(sf_bad), "smallest": mini_f, "repro_output": out_f[-1200:]}, found=True,
+                      repro=SFAULT_REPRO if rc_f != 0 else GENERIC_REPRO % (json.dumps({"seed": seed, "cases": [mini_f["case"]]}), os.path.join(impl_script, "c18_svdqn.py"), "not r['ok']"))
+    if (fstat["svd_cases"] and not fstat["svd_hits"]) or (fstat["krylov_cases"] and not fstat["krylov_hits"]):
+        ctx.violation("c18-fault-injection-inert", "correspondence: the injected LinAlgError never reached a fallback branch (the kernels no longer call eigh_tridiagonal / scipy.linalg.svd(lapack_driver='gesdd') where the harness injects)",
+                      {"fault_stream": fstat}, found=False)
     if oracle_bad:
         svd_b = [b for b in oracle_bad if b["case"]["kind"] == "svd"]
         eig_b = [b for b in oracle_bad if b["case"]["kind"] == "eigh"]
@@ -697,6 +760,15 @@ def run(ctx):
         lst = struct_bad + witness_bad
         ctx.violation("svd_qn-structure", "correspondence Model/SvdQn.v vs svd_qn/eigh_qn (gather index sets, dims, factor shapes, labels, sort permutation)",
                       {"mismatches": len(lst), "first": lst[:3]}, found=False)
+    k_fault = [b for b in k_bad if b["case"].get("fault")]
+    if k_fault:
+        k_bad = [b for b in k_bad if b not in k_fault]
+        rc_k, out_k = common.sh([common.IMPL_PY, "-c", KFAULT_REPRO], env=common.impl_env(), cwd="/", timeout=300)
+        mini_k = min(k_fault, key=lambda b: b["case"]["n"])
+        ctx.violation("krylov-fault-path", "the Krylov exponential on the fallback path of _expm_krylov (eigh_tridiagonal raised LinAlgError, injected; dense np.linalg.eigh) violates the contract of the regular path",
+                      {"failing": len(k_fault), "smallest": mini_k, "repro_output": out_k[-1200:]}, found=True,
+                      repro=KFAULT_REPRO if rc_k != 0 else GENERIC_REPRO % (json.dumps({"seed": seed, "cases": [mini_k["case"]]}), os.path.join(impl_script, "c18_krylov.py"),
+                                                                           "r['error'] or r['err'] > %g or r['ret_gap'] > 1e-9" % KRYLOV_TOL))
     k_norm = [b for b in k_bad if any(w.startswith("NORM:") for w in b.get("why", []))]
     if k_norm:
         k_bad = [b for b in k_bad if b not in k_norm]
@@ -765,6 +837,7 @@ def run(ctx):
         else:
             ctx.violation("krylov-site-unclassified", "krylov_sites_hermitian: a call site is not recognised as passing the Hermitian effective Hamiltonian, but the experiment found no wrong result",
                           detail, found=False)
+    ctx.notes.append({"fault_path_stream (cases / injected failures that reached a fallback branch)": fstat})
     ctx.notes.append({"krylov_stats": kstat, "cmf_experiment": cmf_note, "sites": site_rows, "lapack_contract_checks": lapack_calls,
                       "krylov_dtype_class": {"cases": n_dtype, "failing": len(k_dtype_bad)},
                       "krylov_small_norm_observation(scale -> worst error relative to ||v||; informational)": small_norm})
